@@ -433,9 +433,14 @@ def entityExists (s : St) (e : Ent) : Bool := (Dict.get? s.ents e).isSome && !s.
 
 def entities (s : St) : List Ent := (Dict.keys s.ents).filter (fun e => !s.dead.contains e)
 
+/-- the `visited` set of `_get`: first occurrences, in order -/
+def dedup : List Ty → List Ty
+  | [] => []
+  | a :: l => a :: (dedup l).filter (· ≠ a)
+
 /-- `_get` (world.py:229-251): every visited subtype once -/
 def get (U : Universe) (s : St) (t : Ty) : List (Ent × Obj) :=
-  (visit U t).eraseDups.flatMap fun st =>
+  (dedup (visit U t)).flatMap fun st =>
     (idx s st).filterMap fun e => (Dict.get? (row s e) st).map fun c => (e, c)
 
 inductive Op where
